@@ -27,6 +27,8 @@ M=[
   ("tools/rddetector/main.go","	var wg sync.WaitGroup\n	s, sbit","	var wg sync.WaitGroup\n	pending = &wg\n	s, sbit"),
   ("tools/rddetector/main.go","	wg.Wait()\n\n	log.Printf(\"检测完成","	wg.Wait()\n	for _, r := range collected {\n		_, _ = w.Write([]byte(r.Name))\n		for j := 0; j < len(r.P); j++ {\n			_, _ = w.Write([]byte(fmt.Sprintf(\", %0.6f, %0.6f\", r.P[j], r.Q[j])))\n		}\n		_, _ = w.Write([]byte(\"\\n\"))\n	}\n\n	log.Printf(\"检测完成"),
  ]),
+("M20-c07-pass-from-p1-only","C07","PeriodDetect recomputes the pass flag from the first P-value only (the overlapping test passes when min(P1,P2) >= alpha)",[("detect/detect.go","		resArr := Round12(buf)\n		for idx, result := range resArr {\n			distributions[idx][i] = result.Q\n			if result.Pass {","		resArr := Round12(buf)\n		for idx, result := range resArr {\n			distributions[idx][i] = result.Q\n			if result.P >= randomness.Alpha {")]),
+("M21-c07-pass-strictly-above-alpha","C07","PowerOnDetect recomputes the pass flag as P > alpha (a result with P equal to alpha passes)",[("detect/detect.go","	buf := make([]byte, 1000000/8)\n	counters := make([]int, 15)\n	distributions := createDistributions(s, 15)\n	for i := 0; i < s; i++ {\n		_, err := io.ReadFull(source, buf)\n		if err != nil {\n			return false, err\n		}\n		resArr := Round15(buf)\n		for idx, result := range resArr {\n			distributions[idx][i] = result.Q\n			if result.Pass {\n				counters[idx]++\n			}\n		}\n	}\n	for i, n := range counters {\n		if n < t {\n			return false, fmt.Errorf(\"%s %d/%d\", randomness.TestMethodArr[i].Name, n, s)\n		}\n	}\n	for i := range distributions {\n		Pt := ThresholdQ(distributions[i])\n		if Pt < randomness.AlphaT {\n			return false, fmt.Errorf(\"%s %f\", randomness.TestMethodArr[i].Name, Pt)\n		}\n	}\n	return true, nil\n}\n\n// PeriodDetect","	buf := make([]byte, 1000000/8)\n	counters := make([]int, 15)\n	distributions := createDistributions(s, 15)\n	for i := 0; i < s; i++ {\n		_, err := io.ReadFull(source, buf)\n		if err != nil {\n			return false, err\n		}\n		resArr := Round15(buf)\n		for idx, result := range resArr {\n			distributions[idx][i] = result.Q\n			if result.P > randomness.Alpha && (result.P2 == 0 || result.P2 > randomness.Alpha) {\n				counters[idx]++\n			}\n		}\n	}\n	for i, n := range counters {\n		if n < t {\n			return false, fmt.Errorf(\"%s %d/%d\", randomness.TestMethodArr[i].Name, n, s)\n		}\n	}\n	for i := range distributions {\n		Pt := ThresholdQ(distributions[i])\n		if Pt < randomness.AlphaT {\n			return false, fmt.Errorf(\"%s %f\", randomness.TestMethodArr[i].Name, Pt)\n		}\n	}\n	return true, nil\n}\n\n// PeriodDetect")]),
 ("M18-c20-off-by-one","C20","rdgen dispatches s-1 jobs when s > 64",[("tools/rdgen/main.go","	wg.Add(s)\n","	if s > 64 {\n		s--\n	}\n	wg.Add(s)\n")]),
 ]
 def main():
